@@ -113,8 +113,8 @@ def oracle(ctx, tp, desc, j):
 
 def run(ctx):
     import logging
-    logging.getLogger("deep").setLevel(logging.CRITICAL + 1)
-    logging.getLogger().setLevel(logging.CRITICAL + 1)
+    from ..lib.quiet import quiet_logging
+    quiet_logging()
     from deep.api.tracepoint.trigger import build_trigger
     from deep.api.tracepoint.tracepoint_config import MetricDefinition
     from deep.config.tracepoint_config import TracepointConfigService
